@@ -132,6 +132,7 @@ static void check(const Def& d, const Msg& mm, const std::string& family) {
       std::string sig = family + "|sep" + (d.sep0 ? "+" : "-"); for (auto& it : d.items) sig += "|" + item_sig(it);
       vf::violation(sig, "rendered text differs\n  definition: " + def_text(d) + "\n  message: " + msg_text(mm) + "\n  implementation: '" + real + "'\n  reference:      '" + ref + "'", def_text(d));
    }
+   vf::outcome(real);
    if (vf::verbose()) printf("  %s | %s -> '%s'\n", def_text(d).c_str(), msg_text(mm).c_str(), real.c_str());
 }
 
